@@ -128,6 +128,7 @@ func callKernel(path int, op string, c gf2p16.T, in, out []byte) (fault bool, ms
 
 func runC09(args []string) error {
 	c := newCommon("c09")
+	mode := c.fs.String("mode", "full", "full | procs (reduced case list, run under several GOMAXPROCS values: package initialisation must not depend on it)")
 	c.fs.Parse(args)
 	lg, err := tracelog.Create(c.out)
 	if err != nil {
@@ -193,8 +194,35 @@ func runC09(args []string) error {
 		}
 		ev := tracelog.M{"ev": "kern", "path": pathNames[path], "op": op, "c": cst, "len": n, "inoff": inOff, "outoff": outOff, "layout": layout,
 			"fault": fault, "faultmsg": msg, "canary_ok": gin.canariesOK() && gout.canariesOK(), "in_unchanged": bytes.Equal(inCopy, gin.data),
-			"in": win, "old": wold, "out": wout, "rest_ok": restOK}
+			"in": win, "old": wold, "out": wout, "rest_ok": restOK, "procs": runtime.GOMAXPROCS(0)}
 		lg.Emit(ev)
+		return nil
+	}
+	if *mode == "procs" {
+		// the constants a GOMAXPROCS-dependent (chunked, parallel) table initialisation would get wrong are at the
+		// chunk boundaries and in the remainder at the top; plus the usual suspects and seeded ones
+		pc := []int{0, 1, 2, 3, 0x8000}
+		for k := 0; k < 32; k++ {
+			pc = append(pc, 0xFFFF-k)
+		}
+		np := runtime.GOMAXPROCS(0)
+		for w := 1; w < np; w++ {
+			b := w * (65536 / np)
+			pc = append(pc, b-1, b, b+1)
+		}
+		for k := 0; k < 8; k++ {
+			pc = append(pc, rng.Intn(65536))
+		}
+		for path := 0; path < 6; path++ {
+			for _, op := range []string{"mul", "muladd"} {
+				for ci, cst := range pc {
+					n := []int{2, 30, 32, 34, 64, 66, 320, 16}[ci%8]
+					if err := oneCase(path, op, cst, n, ci%3, (ci/3)%3, []string{"end", "start"}[ci%2]); err != nil {
+						return err
+					}
+				}
+			}
+		}
 		return nil
 	}
 	for path := 0; path < 6; path++ {
